@@ -19,7 +19,7 @@ NOT_BUILT = {
  'C09': "H3 (`Read` returns the failure once `fail` was called).",
  'C10': "the heap-ownership closure argument for cross-session isolation (cross-session access control is C11).",
  'C15': "URL tokens were replaced by concrete URL alphabets parsed by the real `net/url` (§2.3).",
- 'C18': "`subscriptionsListen` bookkeeping (mutant m18d).",
+ 'C18': "the `subscriptions/listen` handler's own map updates (its effect is a harness input).",
  'C19': "the protocol *result* types' MarshalJSON/UnmarshalJSON pairs (struct embedding); H4 is built for the seven content kinds only.",
  'C20': "the pure bit-vector cross-run.",
 }
